@@ -13,7 +13,7 @@ import random
 import re
 import shutil
 
-from vlib import core, fcutil, infgen, slicecheck
+from vlib import core, fcutil, infgen, restrace, slicecheck
 from vlib.core import Infra
 
 LEVEL = "model_checking"
@@ -77,6 +77,7 @@ def run_fns(ctx, fns, princ=None, tag=""):
         count[f.name] = k + 1
         byk.setdefault(k, []).append((f, p, s))
     results = {}
+    reslogs = []
     for k, items in sorted(byk.items()):
         fo = os.path.join(wd, "v%d.fo" % k)
 
@@ -87,7 +88,10 @@ def run_fns(ctx, fns, princ=None, tag=""):
             gen = fcutil.gen_name(path)
             if os.path.exists(gen):
                 os.remove(gen)
-            rc, so, se = fcutil.run_fc(ctx, [path], timeout=300)
+            reslog = path + ".reslog"
+            if k == 0:
+                reslogs.append(reslog)       # white-box trace of the resolver (un-annotated versions)
+            rc, so, se = fcutil.run_fc(ctx, [path], timeout=300, env={"FOLANG_VERIF_RESLOG": reslog} if k == 0 else None)
             if rc == 0 and os.path.exists(gen):
                 sigs, perr = fcutil.goast(ctx, "sigs", gen)
                 decls, _ = fcutil.goast(ctx, "decls", gen)
@@ -148,7 +152,68 @@ def run_fns(ctx, fns, princ=None, tag=""):
     n, bad = slicecheck.parse_trace_end(r["out"])
     if n != len(lines):
         raise Infra("trace length mismatch")
+    resolver_traces(ctx, reslogs, "fn" + tag)
     return lines, bad, princ
+
+
+def resolver_traces(ctx, logs, tag):
+    """validate the recorded rounds of the real resolver against spec/FoResolver.tla"""
+    logs = [l for l in logs if os.path.exists(l)]
+    if not logs:
+        return
+    n, per = restrace.prepare(ctx, logs, tag)
+    total, bad, skipped = restrace.validate(ctx, tag)
+    if total != n:
+        raise Infra("resolver trace length mismatch")
+    st = ctx.extra.setdefault("resolver_rounds", {"validated": 0, "skipped_field_access": 0, "processes": 0})
+    st["validated"] += n - len(logs) - skipped
+    st["skipped_field_access"] += skipped
+    st["processes"] += len(logs)
+    if bad:
+        trace = core.read_ndjson(os.path.join(ctx.spec_dir(), "res_trace%s.ndjson" % tag))
+        # which process
+        starts, acc = [], 0
+        for lg, k in zip(logs, per):
+            starts.append((acc, lg))
+            acc += k + 1
+        for b in bad[:5]:
+            lg = [l for a, l in starts if a < b][-1]
+            ctx.violation("the resolver of fc took a round that spec/FoResolver.tla does not explain (trace line %d of %s): relations %s on the recorded state "
+                          "were followed by %s" % (b, os.path.basename(lg), json.dumps(trace[b - 1]["rels"])[:300], json.dumps(trace[b])[:400]),
+                          {"kind": "resolver-trace", "line": trace[b - 1], "next": trace[b], "source": open(lg[:-len(".reslog")], errors="replace").read()[:20000] if os.path.exists(lg[:-len(".reslog")]) else ""})
+
+
+def workload_traces(ctx):
+    """the repository's own Folang sources through the instrumented fc: fc/*.fo (the self-hosting recipe fc_all.sh), samples/*.fo and
+    cmd/build_sample_md - every recorded round of the resolver must be a step of the model"""
+    repo = ctx.copy_repo()
+    wd = ctx.mkdir("c02work")
+    logs = []
+    recipe = open(os.path.join(repo, "fc", "fc_all.sh")).read()
+    m = re.search(r"\./fc \$PKG_INFO (.*)", recipe)
+    if not m:
+        raise Infra("fc_all.sh: recipe not recognised")
+    srcs = m.group(1).split()
+    d = os.path.join(wd, "fc")
+    os.makedirs(d)
+    for f in srcs:
+        shutil.copy(os.path.join(repo, "fc", f), d)
+    log = os.path.join(d, "self.reslog")
+    rc, so, se = fcutil.run_fc(ctx, srcs, cwd=d, timeout=600, env={"FOLANG_VERIF_RESLOG": log})
+    if rc != 0:
+        raise Infra("fc does not compile its own sources: " + (so + se)[-500:])
+    logs.append(log)
+    d = os.path.join(wd, "samples")
+    os.makedirs(d)
+    for f in sorted(os.listdir(os.path.join(repo, "samples"))) + ["../cmd/build_sample_md/build_sample_md.fo"]:
+        if not f.endswith(".fo"):
+            continue
+        shutil.copy(os.path.join(repo, "samples", f), d)
+        b = os.path.basename(f)
+        log = os.path.join(d, b + ".reslog")
+        rc, so, se = fcutil.run_fc(ctx, [b], cwd=d, timeout=120, env={"FOLANG_VERIF_RESLOG": log})
+        logs.append(log)            # (samples that fc rejects still contribute the rounds before the diagnostic)
+    resolver_traces(ctx, logs, "work")
 
 
 def report(ctx, lines, bad, princ):
@@ -165,17 +230,44 @@ def report(ctx, lines, bad, princ):
             {"fn": l["fn"], "source": l["src"], "recorded": {k: l[k] for k in ("status", "ntparams", "gparams", "gres", "samecode")}, "principal": p})
 
 
+def resolver_model(ctx):
+    """spec/FoResolver.tla (the resolver as implemented: batches per statement, rounds, classes) against the declarative unifier on
+    every order of every small constraint system; the deviations must be refuted (non-vacuity)"""
+    thorough = ctx.tier == "thorough"
+    def cfg(name, max_eqs, orders, sets, merge, dev, live):
+        slicecheck.write_cfg(ctx, name, "CONSTANTS\n  MaxEqs = %d\n  AllOrders = %s\n  WithSets = %s\n  MergeLen = %d\n  Deviations = %s\nSPECIFICATION Spec\n"
+                             "INVARIANTS Agrees RoundsBounded\n%sCHECK_DEADLOCK FALSE\n" % (
+                                 max_eqs, "TRUE" if orders else "FALSE", "TRUE" if sets else "FALSE", merge, dev, "PROPERTIES Terminates\n" if live else ""))
+        return name
+    if thorough:
+        r = ctx.tlc("FoResolverMC", cfg("FoResolverMC_run.cfg", 2, True, True, 4, "{}", True), workers=core.NCPU, timeout=3000, heap_gb=12)
+        ctx.extra["resolver_model_states"] = r["distinct"]
+        r = ctx.tlc("FoResolverMC", cfg("FoResolverMC_3.cfg", 3, False, False, 0, "{}", False), workers=core.NCPU, timeout=3000, heap_gb=12)
+        ctx.extra["resolver_model_states_3eq"] = r["distinct"]
+    else:
+        r = ctx.tlc("FoResolverMC", cfg("FoResolverMC_run.cfg", 1, True, True, 2, "{}", True), workers=core.NCPU, timeout=3000, heap_gb=12)
+        r2 = ctx.tlc("FoResolverMC", cfg("FoResolverMC_2.cfg", 2, False, False, 0, "{}", False), workers=core.NCPU, timeout=3000, heap_gb=12)
+        ctx.extra["resolver_model_states"] = r["distinct"] + r2["distinct"]
+    for dev, inv, me, ml in (("RegisterPairOnly", "Agrees", 0, 3), ("DropUpdateRels", "Agrees", 2, 0), ("AdoptVar", "RoundsBounded", 1, 0)):
+        r = ctx.tlc("FoResolverMC", cfg("FoResolverMC_dev.cfg", me, False, True, ml, '{"%s"}' % dev, False), workers=core.NCPU, timeout=1800, heap_gb=8, allow_fail=True)
+        if ("Invariant %s is violated" % inv) not in r["out"]:
+            raise Infra("deviation %s of FoResolver is not refuted (the model check is vacuous): %s" % (dev, r["out"][-400:]))
+    ctx.note("FoResolver deviations RegisterPairOnly, DropUpdateRels (Agrees) and AdoptVar (RoundsBounded) are refuted by TLC")
+
+
 def run(ctx):
     ctx.rule = ("functions of 1-4 un-annotated parameters from the seeded generator infgen.py over the constructs for which inference is "
                 "documented (arithmetic / comparison with a typed operand, = / <>, calls to library and user functions with known or generic "
                 "signatures (fresh instance per use), record / union construction, tuples, slices, destructuring, function-typed parameters "
-                "applied or passed once, generic user records / unions constructed, put into one slice literal and passed where a concrete instance is expected); quick 1200, thorough 60000 generated functions (those the rules reject as ill-typed are dropped, about 2/3), each with the un-annotated version and up to 7 subsets of its "
+                "applied or passed (also several times), generic user records / unions constructed, put into one slice literal and passed where a concrete instance is expected); quick 1200, thorough 60000 generated functions (those the rules reject as ill-typed are dropped, about 2/3), each with the un-annotated version and up to 7 subsets of its "
                 "redundant annotations; plus the small-scope family of spec/FoInferSmall.tla: every sequence of <= 2 equations x = t (x one of three "
                 "parameters, t of depth <= 1 over the parameters, int, string with [], tuple, IOpt, IBox; 135 equations, quick 1 in 12 of the "
                 "18,225 two-equation sequences, thorough all of them and 1 in 20 of the 592,704 three-equation sequences over the universe "
                 "without string / IBox). distinct = distinct (function, annotated subset); non-trivial = the principal type contains a type "
                 "constructor or a type variable")
     r = ctx.tlc("FoInferMC", "FoInferMC.cfg", workers=4, timeout=1800)
+    resolver_model(ctx)
+    workload_traces(ctx)
     n = 60000 if ctx.tier == "thorough" else 1200
     rng = random.Random(ctx.seed * 15485863 + 2)
     fns = infgen.generate(rng, n)
